@@ -165,6 +165,9 @@ func runEpisode(sc *Scenario) *Result {
 		sim.SetSite(s, false, 0)
 	}
 	sim.SetSite(SStart, true, 1)
+	for _, st := range []simcore.Site{SEvalPre, SEvalPost, SLeafPre, SLeafPost} {
+		sim.DupOK[st] = true
+	}
 	for name, mod := range sc.Sites {
 		s, ok := siteByName[name]
 		if !ok {
@@ -194,6 +197,9 @@ func runEpisode(sc *Scenario) *Result {
 		res.Switches = map[string]int{}
 		for k, n := range st.Switches {
 			res.Switches[siteNames[simcore.Site(k>>16)]+">"+siteNames[simcore.Site(k&0xffff)]] = n
+		}
+		if st.DuplicateLabels > 0 {
+			ep.probes["same-point-evaluated-concurrently"] += st.DuplicateLabels
 		}
 		res.Choices = st.ChoicesTaken
 		res.Sizes = st.ParkedSizes
@@ -383,7 +389,7 @@ func restoreFsize() {
 func (ep *episode) faultPath(j *Job, ext string) (string, error) {
 	base := filepath.Join(ep.dir, fmt.Sprintf("job%d.%s", j.ID, ext))
 	switch j.Fault.Kind {
-	case "", "fsize":
+	case "", "fsize", "vanish":
 		return base, nil
 	case "nodir":
 		return filepath.Join(ep.dir, "missing-dir", fmt.Sprintf("job%d.%s", j.ID, ext)), nil
@@ -432,12 +438,18 @@ func (ep *episode) prepare(j *Job, jres *JobResult) (*jobRun, error) {
 	case "script3":
 		items := genTriangles(j.N, j.Coords, j.CoordSeed)
 		r := &script3{jid: jr.jid, batches: splitBatches(items, j.Batches)}
+		if j.Fault.Kind == "vanish" {
+			r.pre = func() { os.Remove(jr.state.path) }
+		}
 		jr.state = sinkState{sink: j.Sink, tris: items, ordered: len(j.Batches) <= 1}
 		jres.Items = len(items)
 		return jr, ep.bind3(jr, nil, r, faulty)
 	case "script2":
 		items := genLines(j.N, j.Coords, j.CoordSeed)
 		r := &script2{jid: jr.jid, batches: splitBatches(items, j.Batches)}
+		if j.Fault.Kind == "vanish" {
+			r.pre = func() { os.Remove(jr.state.path) }
+		}
 		jr.state = sinkState{sink: j.Sink, lines: items, ordered: len(j.Batches) <= 1, exactDXF: ep.sc.Prop == "C15"}
 		jres.Items = len(items)
 		return jr, ep.bind2(jr, nil, r, faulty)
@@ -465,6 +477,9 @@ func (ep *episode) prepare(j *Job, jres *JobResult) (*jobRun, error) {
 			inner = &dcV1Adapter{r: dc.NewDualContouringV1(-1, 0, false), cells: j.Cells}
 		}
 		tap := &tap3{inner: inner, jid: jr.jid}
+		if j.Fault.Kind == "vanish" {
+			tap.pre = func() { os.Remove(jr.state.path) }
+		}
 		jr.state = sinkState{sink: j.Sink, ordered: true}
 		var s sdf.SDF3 = model
 		if j.EvalMod > 0 {
@@ -500,6 +515,9 @@ func (ep *episode) prepare(j *Job, jres *JobResult) (*jobRun, error) {
 			inner = render.NewDualContouring2D(j.Cells)
 		}
 		tap := &tap2{inner: inner, jid: jr.jid}
+		if j.Fault.Kind == "vanish" {
+			tap.pre = func() { os.Remove(jr.state.path) }
+		}
 		jr.state = sinkState{sink: j.Sink, ordered: true}
 		var s sdf.SDF2 = model
 		if j.EvalMod > 0 {
